@@ -291,7 +291,13 @@ def step (st : DSt) (line : String) : DSt × String :=
     if m.get? "legacy" == some "1" then
       (st, CfgWire.showTEff (TransportCfg.provisionLegacyTransport (m.get? "defaults" == some "1") url))
     else
-    (st, CfgWire.showTEff (TransportCfg.provisionCaddyTransport rt dir url))
+    -- MERCURE_TRANSPORT_URL in the process environment (fields prefixed with e)
+    let env : Option TransportCfg.URL :=
+      if m.get? "env" == some "1" then
+        some { scheme := str "escheme", path := str "eupath", host := str "ehost", size := str "eusize", freq := str "eufreq",
+               freqArg := (CfgWire.floatArg (m.get? "eufreqarg")).getD ⟨false, []⟩, bucket := str "eubucket" }
+      else none
+    (st, CfgWire.showTEff (TransportCfg.provisionCaddyTransportEnv rt dir url env))
   | "cfg.legacy" :: fields =>
     let m := CfgWire.kv fields
     let l : Config.Legacy := {
